@@ -14,6 +14,6 @@ Extraction "model.ml"
   utf8_encode utf8_decode py_int rstrip split splitn join str_of_Z
   parse_ver vlt_full
   frun quiesce finit
-  load_registry load_node load_child dump_registry dump_node legacy_node show_node show_nodes crash_category
+  load_registry load_node load_child dump_registry dump_node legacy_node show_node show_nodes crash_category io_fault_category
   srun readuntil st_write trun ts_init to_mqtt client_write mqtt_connect mqtt_disconnect mc_init life_run ml_init of_mqtt filter_matches subscriptions receive_loop
   lrun linit.
